@@ -171,7 +171,14 @@ func (s *sim) checkTermination(idle bool) {
 	// correct. A node whose signer refused a signature at this height (it had signed
 	// something else before a crash and lost the record of why) is mute for those rounds:
 	// it counts as faulty here.
+	// the validator set of the height in question, as a node working on that height sees it
 	vals := s.nodes[0].cs.GetRoundState().Validators
+	for _, n := range s.nodes {
+		if rs := n.cs.GetRoundState(); rs.Height == gi.height {
+			vals = rs.Validators
+			break
+		}
+	}
 	var faulty, total int64
 	nf := int32(len(s.byz))
 	for _, v := range vals.Validators {
@@ -308,18 +315,19 @@ func (s *sim) unreachable() map[int]bool {
 			continue
 		}
 		h := n.cs.GetRoundState().Height
-		served := false
-		others := 0
+		// nodes ahead of n are the only ones that can bring it up; if all of them have pruned
+		// height h, nobody can
+		ahead, served := 0, false
 		for _, m := range s.nodes {
-			if m == n || !m.isAlive() {
+			if m == n || !m.isAlive() || m.cs.GetRoundState().Height <= h {
 				continue
 			}
-			others++
-			if m.cs.GetRoundState().Height <= h || m.bstore.Base() <= h {
+			ahead++
+			if m.bstore.Base() <= h {
 				served = true
 			}
 		}
-		if others > 0 && !served {
+		if ahead > 0 && !served {
 			out[n.idx] = true
 		}
 	}
